@@ -136,8 +136,16 @@ static void op_encode_objects(const Case &c) {
 static std::vector<Buf *> make_chunks(const Case &c, std::vector<ByteBuffer> &arr, Bytes &designated) {
     std::vector<Buf *> bufs;
     size_t salt = 0;
+    if (c.pre_used == 1 && (c.op == 4 || c.op == 8)) {
+        // the chunks are carved out of one array, back to back (chunk i+1 begins where the memory of chunk i ends)
+        size_t total = 0; for (auto &ch : c.chunks) total += ch[0];
+        bufs.push_back(new Buf(total, total, 0, 0));
+        size_t at = 0;
+        for (auto &ch : c.chunks) { ByteBuffer b; b.data = bufs[0]->blk.p + at; b.size = ch[0]; b.used = ch[1]; b.offset = ch[2]; arr.push_back(b); at += ch[0]; }
+    } else {
     for (auto &ch : c.chunks) { bufs.push_back(new Buf(ch[0], ch[1], ch[2], salt)); salt += 37; }
     for (auto *b : bufs) arr.push_back(b->b);
+    }
     for (size_t i = c.active; i < arr.size(); i++) designated.insert(designated.end(), arr[i].data + arr[i].offset, arr[i].data + arr[i].used);
     return bufs;
 }
@@ -157,11 +165,16 @@ static void op_chunks(const Case &c) {
     } else {
         ByteChunks bc; bc.chunks = arr.size(); bc.active = c.active; bc.chunk = arr.data();
         ep::ScriptSink snk(!c.octet_src); snk.script.steps = c.frag;   // for the encoders, octet_src / frag describe the sink: octet-style, or a chunk sink with short writes and EINTR
+        if (c.capdelta > 0) snk.err_at = c.capdelta - 1;                  // capdelta - 1: number of octets the sink accepts before it fails for good
         ssize_t rc = X_chunks_to_sink(c.k, &snk.snk, &bc);
         if (n == 0) vp::stats().dontcare++;
         else if (n > kmax(c.k)) { if (rc >= 0) F(c, "over-maximum-accepted", "accepted"); else if (!snk.got.empty()) F(c, "refused-after-emission", "octets emitted before the refusal"); }
         else {
             Bytes want = ref_prefix(c.k, n); want.insert(want.end(), designated.begin(), designated.end());
+            if (c.capdelta > 0 && (size_t)(c.capdelta - 1) < want.size()) {
+                if (rc >= 0) F(c, "sink-error-swallowed", vp::fmt("the sink failed after %d octets but the call returned %zd", c.capdelta - 1, rc));
+                else if (!ep::is_prefix(snk.got, want)) F(c, "sink-error-garbage", "what reached the failing sink is not a prefix of prefix + payload");
+            } else
             if (rc != (ssize_t)want.size()) F(c, "return", vp::fmt("returned %zd, total is %zu (sink holds %zu octets)", rc, want.size(), snk.got.size()));
             else if (snk.got != want) F(c, "octets", "sink " + vp::hex(snk.got) + " expected " + vp::hex(want));
         }
@@ -169,14 +182,22 @@ static void op_chunks(const Case &c) {
     for (auto *b : bufs) delete b;
 }
 
+static bool sink_failed(const Case &c, ssize_t rc, const ep::ScriptSink &snk, const Bytes &want) {
+    if (!(c.capdelta > 0 && (size_t)(c.capdelta - 1) < want.size())) return false;
+    if (rc >= 0) F(c, "sink-error-swallowed", vp::fmt("the sink failed after %d octets but the call returned %zd", c.capdelta - 1, rc));
+    else if (!ep::is_prefix(snk.got, want)) F(c, "sink-error-garbage", "what reached the failing sink is not a prefix of prefix + payload");
+    return true;
+}
 static void op_to_sink(const Case &c) {
     ep::ScriptSink snk(!c.octet_src); snk.script.steps = c.frag;
+    if (c.capdelta > 0) snk.err_at = c.capdelta - 1;
     if (c.op == 5) {
         size_t n = (size_t)c.n;
         vp::Block mem(n); for (size_t i = 0; i < n; i++) mem.p[i] = pay(i);
         ssize_t rc = X_memory_to_sink(c.k, &snk.snk, mem.p, n);
         if (n > kmax(c.k)) { if (rc >= 0) F(c, "over-maximum-accepted", "accepted"); else if (!snk.got.empty()) F(c, "refused-after-emission", "octets emitted before the refusal"); return; }
         Bytes want = ref_prefix(c.k, n); want.insert(want.end(), mem.p, mem.p + n);
+        if (sink_failed(c, rc, snk, want)) return;
         if (rc != (ssize_t)want.size()) F(c, "return", vp::fmt("returned %zd, total is %zu", rc, want.size()));
         else if (snk.got != want) F(c, "octets", "sink differs from prefix + payload (first octets " + vp::hex(snk.got.data(), std::min<size_t>(snk.got.size(), 12)) + ")");
         return;
@@ -195,6 +216,7 @@ static void op_to_sink(const Case &c) {
     if (n == 0) { vp::stats().dontcare++; return; }
     if (n > kmax(c.k)) { if (rc >= 0) F(c, "over-maximum-accepted", "accepted"); else if (!snk.got.empty()) F(c, "refused-after-emission", "octets emitted before the refusal"); return; }
     Bytes want = ref_prefix(c.k, n); want.insert(want.end(), src.blk.p + c.boff, src.blk.p + c.boff + n);
+    if (sink_failed(c, rc, snk, want)) return;
     if (rc != (ssize_t)want.size()) { F(c, "return", vp::fmt("returned %zd, total is %zu (unread %zu, free %zu)", rc, want.size(), rest, c.bsize - c.bused)); return; }
     if (snk.got != want) { F(c, "octets", "sink " + vp::hex(snk.got.data(), std::min<size_t>(snk.got.size(), 16)) + " expected " + vp::hex(want.data(), std::min<size_t>(want.size(), 16))); return; }
     if (c.op == 7 && (src.b.offset != before.offset + n || src.b.used != before.used)) F(c, "advance", vp::fmt("buffer advanced by %zu instead of n=%zu", src.b.offset - before.offset, n));
@@ -227,7 +249,9 @@ static void op_decode(const Case &c) {
         stream.insert(stream.end(), pre.begin(), pre.end()); stream.insert(stream.end(), p.begin(), p.end());
         pls.push_back(p);
     }
-    ep::ScriptSource src(!c.octet_src, stream); src.script.steps = c.frag;
+    ep::ScriptSource src(!c.octet_src, stream);
+    // a script entry of 100000 + g is not a fragment but says: the (chunk) source lends a g-octet scratch region through the getbuffer extension
+    for (int v : c.frag) { if (v >= 100000) { if (!c.octet_src) src.lend((size_t)v - 100000); } else src.script.steps.push_back(v); }
     for (size_t f = 0; f < pls.size(); f++) {
         const Bytes &p = pls[f];
         bool last = f + 1 == pls.size();
@@ -274,6 +298,7 @@ static void op_decode(const Case &c) {
             }
         }
     }
+    if (!src.scratch_guard_ok()) { F(c, "lent-region-overrun", "octets outside the region the source lent were written"); return; }
     if (src.pos != stream.size()) F(c, "stream-position", vp::fmt("decoding all frames consumed %zu of %zu octets", src.pos, stream.size()));
 }
 
@@ -297,6 +322,9 @@ static void run_sinks(Case c) {
     c.frag = {-EINTR, 2, -EINTR, -EINTR, 1, 3, 1, -EINTR, 2}; run_case(c);
     c.frag.clear(); c.octet_src = true; run_case(c);
     vp::cls("encoder-into-sink-with-short-writes");
+    // a sink that fails for good after j octets, for the first few j (inside the prefix, at its end, inside the payload)
+    for (int j = 0; j <= 6; j++) { c.octet_src = (j & 1); c.frag.clear(); if (j & 2) c.frag.assign(8, 1); c.capdelta = j + 1; run_case(c); }
+    vp::cls("encoder-into-failing-sink", 7);
 }
 static void run() {
     auto &a = vp::args();
@@ -304,8 +332,8 @@ static void run() {
     bool T = a.thorough();
     size_t maxbuf = T ? 10 : 7;
     vp::stats().rule = vp::fmt("enum: 6 prefix kinds (+ the lenp_* wrapper entry points for the variable-length kind) x lengths 1..1100 and kind maxima +-1 through memory_encode/memory_to_sink; every buffer state (size<=%zu, offset<=used<=size) x n in 0..rest+1 through "
-                               "buffer_encode(_n)/buffer_to_sink(_n); chunk lists of 1..3 small chunks incl. empty/partly consumed ones; huge lengths (2^32-1, 2^32, SSIZE_MAX+-) through prefix objects; "
-                               "decoding of 1..3-frame streams in every fragmentation (stream length <= %d) by chunk and octet sources into memory/buffer/buffer-sink destinations of capacity len-1/len/len+1, "
+                               "buffer_encode(_n)/buffer_to_sink(_n); chunk lists of 1..3 small chunks incl. empty/partly consumed ones, in separate blocks and carved back to back out of one array; huge lengths (2^32-1, 2^32, SSIZE_MAX+-) through prefix objects; "
+                               "decoding of 1..3-frame streams in every fragmentation (stream length <= %d) by chunk and octet sources (and chunk sources lending a scratch buffer) into memory/buffer/buffer-sink destinations of capacity len-1/len/len+1, "
                                "destinations with previous content", maxbuf, T ? 15 : 12);
     vp::stats().exhaustive = true;
     uint64_t idx = 0;
@@ -353,6 +381,7 @@ static void run() {
                 for (size_t i = 0; i < nch; i++) { c.chunks.push_back(cs[x % cs.size()]); x /= cs.size(); if (c.chunks.back()[1] == c.chunks.back()[2]) empty = true; }
                 c.active = active;
                 run_case(c); c.op = 8; run_sinks(c);
+                if (nch > 1) { Case d = c; d.pre_used = 1; d.op = 4; run_case(d); d.op = 8; run_case(d); d.frag.assign(24, 1); run_case(d); vp::cls("chunk-list-carved-from-one-array"); }
                 if (empty) { vp::nontrivial(vp::mix(vp::mix(code, nch), k * 2 + active + 300)); vp::cls("chunk-list-with-empty-chunk"); } else vp::cls("chunk-list-plain");
                 if (vp::want_sample()) vp::sample(ser(c));
             }
@@ -376,6 +405,7 @@ static void run() {
                 if (vp::want_sample()) vp::sample(ser(c));
             }
             if (mine()) { Case c = mk(10, k); c.dec = dec; c.lens = fs; c.capdelta = capd; c.pre_used = pre; c.octet_src = true; run_case(c); vp::cls("octet-source"); }
+            for (int g : {1, 2, 3, 5}) if (mine()) { Case c = mk(10, k); c.dec = dec; c.lens = fs; c.capdelta = capd; c.pre_used = pre; c.frag = {100000 + g, 2, 1, 3}; run_case(c); vp::cls("source-lends-buffer"); }
         }
         if (vp::too_many_failures()) return;
     }
@@ -390,6 +420,7 @@ static void run() {
         c.octet_src = rng.chance(1, 5);
         size_t nfrag = (size_t)rng.range(0, 30);
         for (size_t j = 0; j < nfrag; j++) c.frag.push_back((int)rng.range(1, rng.chance(1, 2) ? 3 : 400));
+        if (!c.octet_src && rng.chance(1, 3)) c.frag.push_back(100000 + (int)rng.pick(std::vector<uint64_t>{1, 2, 3, 7, 16, 64, 300}));
         run_case(c); vp::nontrivial(vp::fnv(ser(c))); vp::cls("random-streams");
     }
 }
